@@ -64,155 +64,235 @@ def _net_increment(path, var):
     return net
 
 
+def _var_change(path, var):
+    """How ``var`` changes along the path: ('const', net) | ('grow', ) |
+    ('shrink', ) | ('descend', ) | ('same', ) | ('jump', text)."""
+    net = 0
+    kind = None
+    for n in path.nodes[:-1]:
+        a = n.ast
+        if n.kind != 'stmt':
+            continue
+        if isinstance(a, ast.AugAssign) and unparse(a.target) == var:
+            if isinstance(a.value, ast.Constant) and isinstance(
+                    a.value.value, int) and isinstance(a.op, (ast.Add,
+                                                              ast.Sub)):
+                net += a.value.value if isinstance(a.op, ast.Add) else \
+                    -a.value.value
+                kind = kind or 'const'
+            elif isinstance(a.op, ast.Add) and isinstance(
+                    a.value, ast.BinOp) and isinstance(
+                        a.value.op, ast.Add) and isinstance(
+                            a.value.right, ast.Constant) and isinstance(
+                                a.value.left, ast.Name):
+                # cursor += <decoded length> + c   (lengths are >= 0)
+                net += a.value.right.value
+                kind = kind or 'const'
+            elif isinstance(a.op, ast.Mult) and isinstance(
+                    a.value, ast.Constant) and a.value.value >= 2:
+                return ('grow', )
+            elif isinstance(a.op, ast.FloorDiv) and isinstance(
+                    a.value, ast.Constant) and a.value.value >= 2:
+                return ('shrink', )
+            else:
+                return ('jump', unparse(a))
+        elif isinstance(a, ast.Assign) and any(
+                unparse(t) == var for t in a.targets):
+            v = a.value
+            if unparse(v) == var:
+                continue
+            if isinstance(v, ast.BinOp) and isinstance(
+                    v.op, ast.FloorDiv) and unparse(v.left) == var and \
+                    isinstance(v.right, ast.Constant) and v.right.value >= 2:
+                return ('shrink', )
+            if isinstance(v, ast.Subscript) and root_name(v) == var:
+                return ('descend', )
+            if isinstance(v, ast.BinOp) and isinstance(
+                    v.op, ast.Add) and unparse(v.left) == var and isinstance(
+                        v.right, ast.Constant) and isinstance(
+                            v.right.value, int):
+                net += v.right.value
+                kind = kind or 'const'
+                continue
+            return ('jump', unparse(a))
+    if kind == 'const':
+        return ('const', net)
+    return ('same', )
+
+
+def _net_increment(path, var):
+    c = _var_change(path, var)
+    if c[0] == 'const':
+        return c[1]
+    if c[0] == 'same':
+        return 0
+    return None
+
+
 def classify_loop(m, f, loop):
-    """Return (variant, ok, message)."""
+    """(variant, status, message); status: 'ok' | 'violation' | 'unknown'.
+
+    'violation' only when some iteration path provably makes no progress
+    for the variant the loop's own test suggests; a loop the rule cannot
+    analyse is 'unknown' (ANALYSIS-ERROR, never a verdict)."""
     cfg = cfg_of(f)
     head = cfg.node_of[id(loop)]
     paths = [p for p in loop_body_paths(cfg, loop) if p.end is head]
     test = loop.test
     ttxt = unparse(test)
-    # ---- work list: while <name>:
-    if isinstance(test, ast.Name):
-        w = test.id
-        bad = []
-        for p in paths:
-            pops = [c for (i, n, c) in path_method_calls(p)
-                    if unparse(c.func.value) == w
-                    and c.func.attr in ('pop', 'popleft')]
-            if len(pops) < 1:
-                bad.append(f'{describe_path(p)}: no pop from {w}')
-        # popped variable(s)
-        popped = set()
-        for st in ast.walk(loop):
-            if isinstance(st, ast.Assign) and isinstance(
-                    st.value, ast.Call) and isinstance(
-                        st.value.func, ast.Attribute) and \
-                    st.value.func.attr in ('pop', 'popleft') and unparse(
-                        st.value.func.value) == w:
-                for t in st.targets:
-                    for nm in ast.walk(t):
-                        if isinstance(nm, ast.Name):
-                            popped.add(nm.id)
-        for p in paths:
-            for (i, n, c) in path_method_calls(p):
-                if unparse(c.func.value) != w or c.func.attr not in (
-                        'append', 'extend', 'insert', 'appendleft'):
+    # atoms of the continuation condition
+    atoms = []
+    if isinstance(test, ast.BoolOp) and isinstance(test.op, ast.And):
+        atoms = list(test.values)
+    elif not (isinstance(test, ast.Constant) and test.value is True):
+        atoms = [test]
+    exit_tests = []
+    for st in ast.walk(loop):
+        if isinstance(st, ast.If) and any(
+                isinstance(b, (ast.Return, ast.Break)) for b in st.body):
+            exit_tests.append(st.test)
+    # ---- work list
+    for a in atoms:
+        if isinstance(a, ast.Name):
+            return _worklist(cfg, loop, paths, a.id)
+    # ---- numeric cursor / counter
+    cmps = [a for a in atoms + exit_tests if isinstance(a, ast.Compare)
+            and len(a.ops) == 1]
+    unknown = None
+    for c in cmps:
+        names = [x.id for x in ast.walk(c) if isinstance(x, ast.Name)]
+        for v in dict.fromkeys(names):
+            changes = [_var_change(p, v) for p in paths]
+            if not paths:
+                continue
+            if all(ch[0] == 'same' for ch in changes):
+                continue  # not the loop's variant variable
+            up = isinstance(c.ops[0], (ast.Lt, ast.LtE)) and any(
+                isinstance(x, ast.Name) and x.id == v
+                for x in ast.walk(c.left)) or isinstance(
+                    c.ops[0], (ast.Gt, ast.GtE)) and c in exit_tests and any(
+                        isinstance(x, ast.Name) and x.id == v
+                        for x in ast.walk(c.left))
+            down = isinstance(c.ops[0], (ast.Gt, ast.GtE)) and c in atoms \
+                and unparse(c.left) == v
+            others = [x for x in names if x != v]
+            moved = [o for o in others for p in paths
+                     if _var_change(p, o)[0] != 'same']
+            bad = []
+            for p, ch in zip(paths, changes):
+                if ch[0] == 'const':
+                    if (up and ch[1] >= 1) or (down and ch[1] <= -1):
+                        continue
+                    bad.append((p, f'net change {ch[1]:+d}'))
+                elif ch[0] == 'grow' and up:
                     continue
-                for a in c.args:
-                    names = {x.id for x in ast.walk(a)
-                             if isinstance(x, ast.Name)}
-                    # comprehension variables are elements of popped data
-                    comp_vars = set()
-                    for x in ast.walk(a):
-                        if isinstance(x, ast.comprehension):
-                            for y in ast.walk(x.target):
-                                if isinstance(y, ast.Name):
-                                    comp_vars.add(y.id)
-                    free = names - comp_vars - {'reversed', 'True', 'False',
-                                                'None'}
-                    derived = all(v in popped for v in free)
-                    selfpush = any(
-                        isinstance(x, ast.Tuple) and x.elts and isinstance(
-                            x.elts[0], ast.Name) and x.elts[0].id in popped
-                        for x in [a]) or (isinstance(a, ast.Name)
-                                          and a.id in popped)
-                    if not derived:
-                        bad.append(
-                            f'push of "{unparse(a)}" is not derived from '
-                            f'the popped element')
-                    elif selfpush:
-                        # the popped element itself is re-pushed: only as a
-                        # "visited" marker, once
-                        before = set(facts_before(p, i))
-                        ok = any(pol is False and t in popped
-                                 for (t, pol) in before)
-                        if not ok:
-                            bad.append(
-                                f'the popped element is pushed again '
-                                f'("{unparse(a)}") without a visited-flag '
-                                'guard')
-        return ('work-list', not bad, '; '.join(bad[:3]))
-    # ---- cursor / numeric: a Name compared in the test
-    if isinstance(test, ast.Compare) or (isinstance(test, ast.Constant)
-                                         and test.value is True):
-        names = [x.id for x in ast.walk(test) if isinstance(x, ast.Name)]
-        cands = list(dict.fromkeys(names))
-        if isinstance(test, ast.Constant):
-            # while True: find the variable of the exit test
-            for st in ast.walk(loop):
-                if isinstance(st, ast.If) and any(
-                        isinstance(b, (ast.Return, ast.Break))
-                        for b in st.body) and isinstance(
-                            st.test, ast.Compare):
-                    cands += [x.id for x in ast.walk(st.test)
-                              if isinstance(x, ast.Name)]
-            cands = list(dict.fromkeys(cands))
-        for v in cands:
-            nets = [_net_increment(p, v) for p in paths]
-            if paths and all(x is not None and x >= 1 for x in nets):
-                # bound must not move
-                others = set()
-                tests = [test] + [st.test for st in ast.walk(loop)
-                                  if isinstance(st, ast.If)]
-                for t_ in tests:
-                    if isinstance(t_, ast.Compare):
-                        nm = [x.id for x in ast.walk(t_)
-                              if isinstance(x, ast.Name)]
-                        if v in nm:
-                            others.update(x for x in nm if x != v)
-                moved = [o for o in others for p in paths
-                         if _net_increment(p, o) not in (0, )]
-                has_exit = not isinstance(test, ast.Constant) or any(
-                    isinstance(st, ast.If) and v in unparse(st.test)
-                    and any(isinstance(b, (ast.Return, ast.Break))
-                            for b in st.body) for st in ast.walk(loop))
-                if not moved and has_exit:
-                    return ('cursor', True, f'{v} grows by >= 1 on every '
-                            'iteration path, bound fixed')
-        # multiplicative growth: v *= c, test v * k <= bound
-        for v in cands:
-            muls = [st for st in ast.walk(loop)
-                    if isinstance(st, ast.AugAssign) and isinstance(
-                        st.target, ast.Name) and st.target.id == v
-                    and isinstance(st.op, ast.Mult) and isinstance(
-                        st.value, ast.Constant) and st.value.value >= 2]
-            if muls and all(
-                    any(n.ast is muls[0] for n in p.nodes) for p in paths):
-                init = single_defs(f).get(v)
-                return ('doubling', True, f'{v} multiplied by a constant '
-                        '>= 2 on every iteration')
-            # halving: v = v // c
-            halves = [st for st in ast.walk(loop) if isinstance(
-                st, ast.Assign) and unparse(st.targets[0]) == v
-                and isinstance(st.value, ast.BinOp) and isinstance(
-                    st.value.op, ast.FloorDiv) and unparse(
-                        st.value.left) == v and isinstance(
-                            st.value.right, ast.Constant)
-                and st.value.right.value >= 2]
-            if halves and all(any(n.ast is halves[0] for n in p.nodes)
-                              for p in paths) and ttxt in (f'{v} > 0',
-                                                           f'{v} >= 1'):
-                return ('halving', True, f'{v} halved on every iteration')
+                elif ch[0] == 'shrink' and down:
+                    continue
+                elif ch[0] == 'same':
+                    bad.append((p, 'no change'))
+                elif ch[0] == 'jump':
+                    unknown = (f'"{v}" is assigned by "{ch[1]}": progress '
+                               'cannot be established')
+                    bad = None
+                    break
+                else:
+                    bad.append((p, ch[0]))
+            if bad is None:
+                continue
+            if moved:
+                unknown = f'the bound {moved[0]} of "{v}" moves in the loop'
+                continue
+            if not bad:
+                return ('cursor', 'ok', f'{v} makes progress on every '
+                        f'iteration path ({len(paths)} paths), bound fixed')
+            p, why = bad[0]
+            return ('cursor', 'violation',
+                    f'on {describe_path(p)} the loop variable "{v}" of '
+                    f'"while {ttxt}" makes no progress ({why}): the loop '
+                    'does not terminate on inputs that take this path')
     # ---- descent: while P(n): n = n[k]
-    names = [x.id for x in ast.walk(test) if isinstance(x, ast.Name)]
+    names = [x.id for a in atoms for x in ast.walk(a)
+             if isinstance(x, ast.Name)]
     for v in dict.fromkeys(names):
-        ok = bool(paths)
-        for p in paths:
-            desc = False
-            for n in p.nodes[:-1]:
-                a = n.ast
-                if n.kind == 'stmt' and isinstance(a, ast.Assign) and \
-                        unparse(a.targets[0]) == v and isinstance(
-                            a.value, ast.Subscript) and root_name(
-                                a.value) == v:
-                    desc = True
-            ok = ok and desc
-        if ok:
-            return ('descent', True, f'{v} replaced by a strict sub-term on '
-                    'every iteration')
-    return ('unknown', False, f'loop "while {ttxt}" matches none of the '
-            'recognised termination variants (work list, cursor, '
-            'doubling/halving, descent)')
+        changes = [_var_change(p, v) for p in paths]
+        if paths and any(ch[0] == 'descend' for ch in changes):
+            bad = [(p, ch) for p, ch in zip(paths, changes)
+                   if ch[0] != 'descend']
+            if not bad:
+                return ('descent', 'ok', f'{v} replaced by a strict '
+                        'sub-term on every iteration')
+            if any(ch[0] == 'jump' for _, ch in bad):
+                unknown = f'"{v}" reassigned in an unrecognised way'
+                continue
+            return ('descent', 'violation',
+                    f'on {describe_path(bad[0][0])} "{v}" is not replaced '
+                    'by a sub-term: the loop does not terminate')
+        if paths and atoms and all(ch[0] == 'same' for ch in changes) and \
+                any(isinstance(a, ast.Call) and any(
+                    isinstance(x, ast.Name) and x.id == v
+                    for x in ast.walk(a)) for a in atoms) and len(
+                        dict.fromkeys(names)) == 1:
+            return ('descent', 'violation',
+                    f'the loop "while {ttxt}" never changes "{v}"')
+    return ('unknown', 'unknown', unknown or
+            f'loop "while {ttxt}" matches none of the recognised '
+            'termination variants (work list, cursor, doubling/halving, '
+            'descent)')
+
+
+def _worklist(cfg, loop, paths, w):
+    bad = []
+    for p in paths:
+        pops = [c for (i, n, c) in path_method_calls(p)
+                if unparse(c.func.value) == w
+                and c.func.attr in ('pop', 'popleft')]
+        if len(pops) < 1:
+            bad.append(f'{describe_path(p)}: no pop from {w}')
+    popped = set()
+    for st in ast.walk(loop):
+        if isinstance(st, ast.Assign) and isinstance(
+                st.value, ast.Call) and isinstance(
+                    st.value.func, ast.Attribute) and \
+                st.value.func.attr in ('pop', 'popleft') and unparse(
+                    st.value.func.value) == w:
+            for t in st.targets:
+                for nm in ast.walk(t):
+                    if isinstance(nm, ast.Name):
+                        popped.add(nm.id)
+    for p in paths:
+        for (i, n, c) in path_method_calls(p):
+            if unparse(c.func.value) != w or c.func.attr not in (
+                    'append', 'extend', 'insert', 'appendleft'):
+                continue
+            for a in c.args:
+                names = {x.id for x in ast.walk(a)
+                         if isinstance(x, ast.Name)}
+                comp_vars = set()
+                for x in ast.walk(a):
+                    if isinstance(x, ast.comprehension):
+                        for y in ast.walk(x.target):
+                            if isinstance(y, ast.Name):
+                                comp_vars.add(y.id)
+                free = names - comp_vars - {'reversed', 'True', 'False',
+                                            'None'}
+                derived = all(v in popped for v in free)
+                selfpush = (isinstance(a, ast.Tuple) and a.elts
+                            and isinstance(a.elts[0], ast.Name)
+                            and a.elts[0].id in popped) or (
+                                isinstance(a, ast.Name) and a.id in popped)
+                if not derived:
+                    bad.append(f'push of "{unparse(a)}" is not derived from '
+                               'the popped element')
+                elif selfpush:
+                    before = set(facts_before(p, i))
+                    ok = any(pol is False and t in popped
+                             for (t, pol) in before)
+                    if not ok:
+                        bad.append('the popped element is pushed again '
+                                   f'("{unparse(a)}") without a '
+                                   'visited-flag guard')
+    return ('work-list', 'ok' if not bad else 'violation',
+            '; '.join(bad[:3]))
 
 
 def rule_r2(chk, prog):
@@ -225,11 +305,15 @@ def rule_r2(chk, prog):
             for loop in walk_no_nested(f):
                 if isinstance(loop, ast.While):
                     n += 1
-                    variant, ok, msg = classify_loop(m, f, loop)
+                    variant, status, msg = classify_loop(m, f, loop)
+                    if status == 'unknown':
+                        raise AnalysisError(
+                            f'C03.R2: {m.loc(loop)} in {m.name}.{q}: {msg}')
                     chk.check('C03.R2', f'{m.name}.{q}',
-                              f'while {unparse(loop.test)} [{variant}]', ok,
-                              msg or variant, loc=m.loc(loop),
-                              nontrivial=True, argument=msg or variant)
+                              f'while {unparse(loop.test)} [{variant}]',
+                              status == 'ok', msg or variant,
+                              loc=m.loc(loop), nontrivial=True,
+                              argument=msg or variant)
                 elif isinstance(loop, (ast.For, ast.comprehension)):
                     it = loop.iter
                     for c in ast.walk(it):
@@ -716,11 +800,13 @@ def rule_r5(chk, prog):
     chk.check('C03.R5', 'strategy_ddmin._apply_mutator', 'one granularity '
               'loop', len(loops) == 1, f'{len(loops)} loops', loc=dm.loc(f))
     for l in loops:
-        variant, ok, msg = classify_loop(dm, f, l)
+        variant, status, msg = classify_loop(dm, f, l)
+        if status == 'unknown':
+            raise AnalysisError(f'C03.R5: {dm.loc(l)}: {msg}')
         chk.check('C03.R5', 'strategy_ddmin._apply_mutator',
                   f'while {unparse(l.test)} [{variant}]',
-                  ok and variant == 'halving', msg or
-                  'granularity loop is not a halving loop', loc=dm.loc(l),
+                  status == 'ok', msg or
+                  'granularity does not shrink on every path', loc=dm.loc(l),
                   nontrivial=True)
     r = dm.func('reduce')
     rcfg = cfg_of(r)
